@@ -48,6 +48,7 @@ def k_arches(order):
     for i in order:
         v.arches.add(arches[i - 1])
         v.paths.os_tree[arches[i - 1]] = "Server/%s/os" % arches[i - 1]
+    v.paths.os_tree["riscv64"] = "Server/riscv64/os"          # prepared for an arch the variant gets later (see _edit)
     ci.variants.add(v)
     return ci
 
@@ -115,6 +116,9 @@ def k_rpms(order):
                 pass
         m.add("Server" if i % 2 else "Client", "x86_64" if i < 4 else "ppc64le", "%s-0:1-1.x86_64" % n, "p/%s.rpm" % n, None, "binary",
               "%s-0:1-1.src" % (n if i != 2 else "bash"))
+    # a package filed in a tree of its own and taken out again: the emptied buckets are content like any other (every dump shows the same)
+    m.add("Gone", "s390x", "gone-0:1-1.s390x", "p/gone.rpm", None, "binary", "gone-0:1-1.src")
+    del m.rpms["Gone"]["s390x"]["gone-0:1-1.src"]["gone-0:1-1.s390x"]
     return m
 
 
@@ -182,6 +186,25 @@ def k_treeinfo_variants(order):
     return t
 
 
+def k_treeinfo_children(order):
+    """One treeinfo variant whose children of every type are added in the given order."""
+    from productmd.treeinfo import Variant
+    t = samples.treeinfo(0)
+    top = Variant(t)
+    top.id = top.uid = top.name = "Zeta"
+    top.type = "variant"
+    top.paths.packages = "Zeta/Packages"
+    t.variants.add(top, variant_id=top.uid)
+    kids = [("HA", "addon"), ("optional", "optional"), ("Tools", "variant"), ("RS", "addon"), ("Extras", "optional")]
+    for i in order:
+        cid, ctype = kids[i - 1]
+        c = Variant(t)
+        c.id, c.uid, c.name, c.type = cid, "Zeta-" + cid, cid, ctype
+        c.paths.repository = "Zeta/" + cid
+        top.add(c)
+    return t
+
+
 def k_extra_files(order):
     """Extra-file entries are a caller-ordered list (content): orders are compared with themselves only; between two dumps
     the partial dump_for_tree is taken, which must not change what later dumps write."""
@@ -210,6 +233,11 @@ def _edit(obj):
         obj.tree.arch = "ppc64le" if obj.tree.arch != "ppc64le" else "s390x"
     else:
         obj.compose.respin += 1
+        try:
+            if "riscv64" in obj["Server"].paths.os_tree:
+                obj["Server"].arches.add("riscv64")           # the arch whose path was stored before the dumps
+        except (KeyError, TypeError, AttributeError):
+            pass
 
 
 def _between_treeinfo(obj):
@@ -236,7 +264,7 @@ ORDERED = {"extra_files"}                 # kinds whose part order is content
 BETWEEN = {"extra_files": _between_extra_files, "treeinfo_variants": _between_treeinfo, "images": _between_images}
 KINDS = {"extra_files": k_extra_files, "top_variants": k_top_variants, "child_variants": k_child_variants, "arches": k_arches, "free_arches": k_free_arches, "path_entries": k_path_entries,
          "images": k_images, "rpms": k_rpms, "modules": k_modules, "platforms": k_platforms, "checksums": k_checksums,
-         "image_table": k_image_table, "treeinfo_variants": k_treeinfo_variants}
+         "image_table": k_image_table, "treeinfo_variants": k_treeinfo_variants, "treeinfo_children": k_treeinfo_children}
 
 
 def _subseq(small, big):
@@ -334,7 +362,7 @@ def worker(orders, dumps):
 
 def run(ctx):
     ctx.rule = ("TLC enumerates every insertion history of N = 4 (quick) / 5 parts followed by 1-3 dumps (Canon.tla, all N! orders, confluent "
-                "by construction of the state graph); for each of 12 unordered part kinds (top-level and child variants, arch sets of known and of free names, path-table "
+                "by construction of the state graph); for each of 13 unordered part kinds (top-level and child variants, arch sets of known and of free names, path-table "
                 "entries, images per cell, RPMs, module entries, tree platforms, checksums, image-table entries, treeinfo variants) every "
                 "history is replayed on the real classes in separate interpreters started with PYTHONHASHSEED in {0,1,2 | 3,7,42,12345,random}: "
                 "all outputs of one content class must be byte-identical across orders, repeated dumps and hash seeds; JSON key-sorted with "
